@@ -351,7 +351,7 @@ def make_case(rng, tier):
     root = "module" if r < 0.55 else rng.choice(("op", "region", "block"))
     hostile = rng.random() < 0.6
     kw = dict(root=root, n_outside=0 if root == "module" and rng.random() < 0.7 else rng.choice((1, 2, 3)),
-              max_ops=rng.choice((6, 12, 20, 30, 45)), max_depth=rng.choice((1, 2, 3, 4)))
+              max_ops=rng.choice((6, 12, 20, 30, 45)), max_depth=rng.choice((1, 2, 3, 4)), p_loc=rng.choice((0.0, 0.2)))
     cfg = genir.Cfg.hostile(**kw) if hostile else (genir.Cfg(**kw) if rng.random() < 0.6 else genir.Cfg.plain(**kw))
     spec = genir.gen_spec(rng, cfg)
     case = {"spec": spec, "entry": rng.choice(ENTRIES), "pick": rng.randrange(1 << 30), "variant": rng.randrange(len(FLAG_VARIANTS)),
@@ -630,6 +630,13 @@ def run_clone_case(case, C, sets, soft):
             raise Violation(f"{entry}:hints-or-locations-differ",
                             f"{desc}: hints/locations of the copy differ: {first_diff(exp_h, got_h)}")
     bump("hint_comparisons")
+    # block-argument locations (not part of the canonical form): positional comparison
+    from xdsl.ir import BlockArgument
+    from xv.canon import canon_attr
+    if entry != "op.clone_without_regions":
+        for a, b in zip(s_values, c_values):
+            if isinstance(a, BlockArgument) and canon_attr(a.location) != canon_attr(b.location):
+                raise Violation(f"{entry}:block-argument-location-differs", f"{desc}: block argument location not cloned")
     # ---- mapper contents (positional correspondence)
     if vm is not None and entry != "op.clone_without_regions":
         for a, b in zip(s_values, c_values):
@@ -771,6 +778,18 @@ class InjectedFailure(Exception):
     pass
 
 
+class CaseTimeout(BaseException):
+    """raised from a SIGALRM handler: a pass that does not terminate on some input (not this property) must not
+    take the shard with it; BaseException so that `except Exception` inside passes cannot swallow it"""
+
+
+CASE_SECONDS = 30
+
+
+def _alarm_handler(signum, frame):
+    raise CaseTimeout()
+
+
 _FP = {"count": 0, "raise_at": None, "active": False, "after": True}
 
 
@@ -806,6 +825,53 @@ def _install_failpoints():
         wrap(Region, n)
     wrap(OpOperands, "__setitem__")
     Block._xv_c02_fp = True
+
+
+_PROBE = {}
+
+
+def probe_passes():
+    """Harness-defined passes that edit everything a pass can reach (the clone AND the Context) and optionally raise
+    half-way: apply_to_clone must isolate the original from all of it, whatever the registered passes happen to do."""
+    if _PROBE:
+        return _PROBE["ok"], _PROBE["fail"]
+    from dataclasses import dataclass
+    from xdsl.dialects.builtin import StringAttr
+    from xdsl.dialects.test import TestOp
+    from xdsl.ir import Dialect
+    from xdsl.irdl import IRDLOperation, irdl_op_definition
+    from xdsl.passes import ModulePass
+
+    @irdl_op_definition
+    class XvProbeOp(IRDLOperation):
+        name = "xvprobe.op"
+
+    @dataclass(frozen=True)
+    class XvProbePass(ModulePass):
+        name = "xv-probe"
+        fail: bool = False
+
+        def apply(self, ctx, op):
+            ctx.allow_unregistered = not ctx.allow_unregistered
+            ctx.load_op(XvProbeOp)
+            ctx.register_dialect("xvprobe", lambda: Dialect("xvprobe", [XvProbeOp], []))
+            ops = list(op.walk())
+            for i, o in enumerate(ops):
+                o.attributes["xv.touched"] = StringAttr(str(i))
+                for r in o.results:
+                    r.name_hint = "xvprobe"
+            op.attributes["xv.root"] = StringAttr("x")
+            blk = op.body.block
+            blk.add_op(TestOp.create(operands=[r for o in ops[1:3] for r in o.results]))
+            if self.fail:
+                raise InjectedFailure("probe pass fails after editing the clone and the context")
+            for o in reversed(ops[1:]):
+                if o.parent is blk and all(r.first_use is None for r in o.results):
+                    blk.erase_op(o)
+                    break
+
+    _PROBE["ok"], _PROBE["fail"] = XvProbePass(), XvProbePass(fail=True)
+    return _PROBE["ok"], _PROBE["fail"]
 
 
 def ctx_state(ctx):
@@ -863,8 +929,15 @@ def run_apply_case(ctx, module, pname, pinst, fail_seed, C, text_for_witness, ou
             finally:
                 _FP["active"] = False
         cls.apply = apply_with_failpoints
+        import signal
+        signal.signal(signal.SIGALRM, _alarm_handler)
+        signal.alarm(CASE_SECONDS)
         try:
             res = pinst.apply_to_clone(ctx, module)
+        except CaseTimeout:
+            raised = TimeoutError()
+            bump("apply_timed_out")
+            bump("apply_timed_out:" + pname)
         except InjectedFailure as e:
             raised = e
             bump("apply_raised_injected")
@@ -875,6 +948,7 @@ def run_apply_case(ctx, module, pname, pinst, fail_seed, C, text_for_witness, ou
             raised = e
             bump("apply_raised_own")
         finally:
+            signal.alarm(0)
             _FP.update(active=False)
             cls.apply = orig_apply
         bump("apply_to_clone_calls")
@@ -924,11 +998,12 @@ def plan(tier, seed):
     if tier == "quick":
         n_clone, per, n_pass, pper = 24, 140, 12, 260
     else:
-        n_clone, per, n_pass, pper = 64, 1000, 48, 1600
+        n_clone, per, n_pass, pper = 64, 1000, 32, 4000
     for i in range(n_clone):
         jobs.append({"kind": "clone", "seed": seed * 100003 + i, "n": per, "tier": tier})
     for i in range(n_pass):
-        jobs.append({"kind": "pass", "seed": seed * 100003 + 7919 + i, "n": pper, "shard": i, "nshards": n_pass, "tier": tier})
+        jobs.append({"kind": "pass", "seed": seed * 100003 + 7919 + i, "n": pper, "shard": i, "nshards": n_pass, "tier": tier,
+                     "rand_passes": 2 if tier == "quick" else 12, "chunks_per_file": 4 if tier == "quick" else 50})
     return jobs
 
 
@@ -1042,12 +1117,12 @@ def work(job):
                 except OSError:
                     continue
                 pipes = pipelines_of(full)
-                for text in texts[:4]:
+                for text in texts[:job.get("chunks_per_file", 4)]:
                     if len(text) > 20000:
                         continue
                     for pipe in pipes[:2]:
                         todo.append((("corpus", text), pipe, [], rng.randrange(1 << 30)))
-                    names = [n for n, _ in rng.sample(passes, 2)] + [rng.choice(["canonicalize", "cse", "dce"])]
+                    names = [n for n, _ in rng.sample(passes, job.get("rand_passes", 2))] + [rng.choice(["canonicalize", "cse", "dce"])]
                     todo.append((("corpus", text), None, names, rng.randrange(1 << 30)))
         pmap = dict(passes)
         for m, pipe, names, fseed in todo:
@@ -1074,6 +1149,10 @@ def work(job):
             else:
                 chain = None
             items = chain if chain is not None else [(n, pmap[n]) for n in names]
+            if chain is None:
+                ok_p, fail_p = probe_passes()
+                items = items + [("xv-probe", ok_p), ("xv-probe{fail}", fail_p)]
+                C["probe_pass_cases"] = C.get("probe_pass_cases", 0) + 2
             cur_ctx, cur_mod = ctx, module
             for k, (pname, pinst) in enumerate(items):
                 res["evaluations"] += 1
